@@ -16,6 +16,10 @@ CHECKS = {
             "DESIGN.md §3 C02",
             "For every recorded session of up to 14 object packets (scheme x (k,parity) x block shape x interleave x signalling x transfer count) all 2^n loss subsets and all 3^n lost/once/twice vectors (n <= 9) are delivered, with the FDT first, only after the object, or never; whenever the harness's own RFC decode says the property's premise holds the real receiver must deliver exactly one complete byte-exact copy.",
             "Trusted: the recoverability predicate (independent RFC decode + 128-bit partition reference); 'FDT late' = the recorded FDT packets re-delivered after the object; sessions above 14 packets are outside the bound (no sampling is used)."),
+    "C03": ("model_checking", "exhaustive exploration of all orderings / repetition sequences / sub-multisets / single-packet corruptions of recorded sessions on the real receiver", "gridx",
+            "DESIGN.md §3 C03",
+            "All n! orderings (n <= 7 quick, 8 thorough), all sequences with repetition up to length 5/6, all subsets in emission and reverse order, and every payload byte x {0x01,0x80,0xFF} and every truncation of every object packet, of recorded real sessions (all schemes, cenc, in-band and FDT-only, two-transfer and carousel sessions) are pushed into the real MultiReceiver; on every execution every writer that saw complete must hold exactly the sender's bytes, no writer gets two terminal calls, and an altered object never stays open.",
+            "Trusted: monitoring writer; one corrupted packet per history; MD5 collisions ignored."),
 }
 
 NOT_YET = {}
